@@ -234,5 +234,7 @@ func init() {
 	PropRules["C05"] = []string{"OWN-1", "OWN-2", "OWN-3", "OWN-4", "OWN-5", "OWN-6", "OWN-7"}
 	PropRules["C14"] = []string{"ERR-1", "ERR-2", "ERR-3", "ERR-4", "ERR-5", "ERR-6"}
 	PropRules["C11"] = []string{"TOK-9", "TOK-10", "TOK-11", "TOK-12", "TOK-7", "PAN-2", "PAN-4"}
+	PropRules["C18"] = []string{"ORD-7", "ORD-9", "ORD-13", "ORD-14"}
+	PropRules["C06"] = []string{"ORD-10", "ORD-11", "ORD-12"}
 	PropRules["C13"] = []string{"COD-1", "COD-12", "COD-2", "COD-3", "COD-4"}
 }
